@@ -1115,6 +1115,11 @@ class SCRun:
             sim.loop.aborting = False
         if sim.outcome == "deadlock":
             self.v("C03.stuck", f"would block forever: {sim.error}")
+            if self.prop in ("C01", "C02", "C07"):
+                # generated programs terminate by construction: a task group block (or a start() call) that never
+                # finishes never delivers what these properties promise about its end
+                blocked = [(r["tid"], r.get("op")) for r in self.hist if r["kind"] == "begin"][-3:]
+                self.v(self.prop + ".never_finishes", f"the program would block forever ({sim.error}); last operations begun: {blocked}")
         elif sim.outcome == "itercap":
             self.v("C03.stuck", f"busy loop / iteration cap: {sim.error}", sig="C03.stuck:itercap")
             self.v("C05.busy", f"iteration cap: {sim.error}", sig="C05.busy:itercap")
